@@ -1,6 +1,11 @@
 (* C21 wire functions.
-   input : [cap mode [op ...]]   cap 0..4096; mode 0/1 only tells the harness whether to run a final
-                                 blocking read for real (the model ignores it)
+   input : [cap mode [op ...]]   cap 0..4096; mode bit0/bit1 only tell the harness whether to run a final
+                                 blocking read for real / which constructor to use (the model ignores them);
+                                 mode bit2 (with cap >= 1) = CONCURRENT TRANSFER: a writer goroutine writes the
+                                 data of all Write ops in order (retrying the unaccepted rest) and then closes
+                                 with io.EOF, while a reader goroutine reads (buffer sizes taken from the Read
+                                 ops) until it gets an error; the output is ONE read observation
+                                 [2 len xALLDATA err 0] summarising everything the reader received
      op  : [1 xDATA] Write | [2 n] Read (buffer of n bytes) | [3 e] CloseWithError | [4 e] BreakWithError
            | [5] Err | [6] Release | [7] Done-closed? | [8 e] CloseWithErrorAndCode | [9] Peek (r,w)
            e in 0..9 : 0 = nil (panics), 1 = io.EOF, 2..9 distinct other errors
@@ -70,9 +75,23 @@ Definition decode_obs (v : val) : option obs :=
 Definition decode_outs (o : val) : option (list obs) :=
   match o with VL l => all_some (map decode_obs l) | _ => None end.
 
+(* concurrent-transfer mode? *)
+Definition conc_mode (i : val) : bool :=
+  match i with
+  | VL [VZ cap; VZ mode; _] => Z.testbit mode 2 && (1 <=? cap)
+  | _ => false
+  end.
+
+(* what a transfer must deliver, whatever the schedule: all written bytes, in order, once, then io.EOF
+   (theorem C21_transfer_any_schedule: the model delivers exactly this under every schedule) *)
+Definition transfer_result (ops : list op) : obs :=
+  let data := concat (write_chunks ops) in BRead (length data) data E_EOF 0.
+
 Definition run_C21 (i : val) : val :=
   match decode_input i with
-  | Some (cap, ops) => VL (map encode_obs (snd (run_pipe cap ops)))
+  | Some (cap, ops) =>
+      if conc_mode i then VL [encode_obs (transfer_result ops)]
+      else VL (map encode_obs (snd (run_pipe cap ops)))
   | None => VErr 0
   end.
 
@@ -85,7 +104,13 @@ Definition agree_C21 (i o : val) : bool := val_eqb (run_C21 i) o.
    pending and no error is set. *)
 Definition prop_C21 (i o : val) : bool :=
   match decode_input i, decode_outs o with
-  | Some (cap, ops), Some outs => spec_ok cap ops outs
+  | Some (cap, ops), Some outs =>
+      if conc_mode i
+      then match outs with
+           | [BRead n data e _] => Nat.eqb n (length data) && lz_eqb data (concat (write_chunks ops)) && (e =? E_EOF)
+           | _ => false
+           end
+      else spec_ok cap ops outs
   | Some _, None => false
   | None, _ => val_eqb o (VErr 0)          (* malformed script: nothing is run *)
   end.
